@@ -57,7 +57,7 @@ impl<const N: usize> Introspectable for Slot<N> {
     }
 }
 
-pub const SLOTS: usize = 4;
+pub const SLOTS: usize = 64;
 
 #[derive(Clone, Copy, Debug, PartialEq, Eq, Hash, PartialOrd, Ord)]
 pub enum Wrap {
@@ -99,10 +99,46 @@ macro_rules! slot_dyn {
     };
 }
 
+macro_rules! plain_dyn {
+    ($j:expr, $($n:literal),*) => {
+        match $j {
+            $( $n => DynIntrospectable::new::<Slot<$n>>(), )*
+            _ => unreachable!("slot index"),
+        }
+    };
+}
+
+/// The slot `j` itself (part B uses up to 64 slots, one per type node).
+pub fn dyn_plain(j: usize) -> DynIntrospectable {
+    plain_dyn!(
+        j, 0, 1, 2, 3, 4, 5, 6, 7, 8, 9, 10, 11, 12, 13, 14, 15, 16, 17, 18, 19, 20, 21, 22, 23, 24, 25, 26, 27, 28, 29, 30, 31, 32, 33, 34, 35, 36, 37, 38, 39,
+        40, 41, 42, 43, 44, 45, 46, 47, 48, 49, 50, 51, 52, 53, 54, 55, 56, 57, 58, 59, 60, 61, 62, 63
+    )
+}
+
+/// A fully built node: layout plus the slots it refers to.
+pub struct RawEntry {
+    pub layout: LayoutIr,
+    pub refs: Vec<usize>,
+}
+
+/// Load a complete node table (part B).
+pub fn install_raw(nodes: Vec<RawEntry>) {
+    TABLE.with(|t| {
+        let mut t = t.borrow_mut();
+        t.clear();
+        t.resize(SLOTS, None);
+        for (i, n) in nodes.into_iter().enumerate() {
+            t[i] = Some(Entry { layout: n.layout, refs: n.refs.into_iter().map(|j| Member::S(Wrap::Plain, j)).collect() });
+        }
+    });
+}
+
 fn dyn_member(m: Member) -> DynIntrospectable {
     match m {
         Member::U8 => DynIntrospectable::new::<u8>(),
         Member::Str => DynIntrospectable::new::<String>(),
+        Member::S(Wrap::Plain, j) => dyn_plain(j),
         Member::S(w, j) => slot_dyn!(w, j, 0, 1, 2, 3),
     }
 }
@@ -870,6 +906,9 @@ pub fn run(tier: Tier) -> ! {
     let n_f4 = f4.len();
     f4.par_iter().enumerate().for_each(|(i, g)| check_graph(&cx, g, &p3, i % 13 == 0));
 
+    // Part B: generated code (text path, macro path, reordered twins) against the hand-built IR
+    let part_b = generated_part(&cx, tier);
+
     let comps = cx.computations.load(Ordering::Relaxed);
     let distinct: usize = cx.by_canon.iter().map(|m| m.lock().unwrap().len()).sum();
     let distinct_ids: usize = cx.by_id.iter().map(|m| m.lock().unwrap().len()).sum();
@@ -888,6 +927,7 @@ pub fn run(tier: Tier) -> ! {
         "two_type_wirings": n_f2,
         "three_type_wirings": n_f3,
         "same_name_across_schemas_graphs": n_f4,
+        "generated_code": part_b,
         "presentations_per_graph": {"one": p1.len(), "two": p2.len(), "three": p3.len()},
         "distinct_descriptions": distinct,
         "distinct_ids": distinct_ids,
@@ -899,6 +939,80 @@ pub fn run(tier: Tier) -> ! {
         "layouts are built at run time through generic slot types; agreement of macro-generated and generator-generated code with the hand-built IR is checked by the generated-corpus part (C16 corpus)".into(),
         "descriptions are compared through a 128-bit hash".into(),
     ]);
+}
+
+/// Part B. Returns the coverage breakdown.
+fn generated_part(cx: &Ctx, tier: Tier) -> Value {
+    use crate::c16::{build, Built};
+    let bin = match build(tier) {
+        Built::Ok(bin, _) => bin,
+        Built::Violation(clause, _) => {
+            // reported by C16 (the generated code must compile); nothing to compare here
+            return json!({"skipped": format!("the corpus does not build: {clause} (reported by C16)")});
+        }
+    };
+    let out = std::process::Command::new(&bin).arg("typeids").output().unwrap_or_else(|e| mcx::machinery(format!("cannot run {bin:?}: {e}")));
+    if !out.status.success() {
+        mcx::machinery(format!("corpus typeids failed: {}", String::from_utf8_lossy(&out.stderr)));
+    }
+    let corpus = crate::corpus::schemas(tier == Tier::Thorough);
+    let u = crate::c20b::Universe::new(&corpus);
+    let mut gen_ids: BTreeMap<String, Value> = BTreeMap::new();
+    let mut twins: BTreeMap<String, String> = BTreeMap::new();
+    for line in String::from_utf8_lossy(&out.stdout).lines() {
+        let Ok(v) = serde_json::from_str::<Value>(line) else { continue };
+        let Some(name) = v["type"].as_str() else { continue };
+        if let Some(t) = v["twin"].as_str() {
+            twins.insert(name.to_string(), t.to_string());
+        } else {
+            gen_ids.insert(name.to_string(), v.clone());
+        }
+    }
+    let types = crate::c20b::data_types(&corpus);
+    let g = Graph { types: vec![] };
+    let mut compared = 0u64;
+    let mut twin_compared = 0u64;
+    for full in &types {
+        let Some(v) = gen_ids.get(full) else {
+            viol(cx, "generated/type-missing-from-corpus-binary", &g, json!({"type": full}));
+            continue;
+        };
+        let hand = match crate::c20b::hand_id(&u, full) {
+            Ok(id) => id.to_string(),
+            Err(p) => {
+                viol(cx, "generated/hand-ir-panics", &g, json!({"type": full, "panic": p}));
+                continue;
+            }
+        };
+        cx.computations.fetch_add(1, Ordering::Relaxed);
+        let text = v["text"].as_str().unwrap_or("");
+        let mac = v["macro"].as_str().unwrap_or("");
+        compared += 1;
+        if text != hand || mac != hand {
+            let kind = match u.defs.get(full).map(|d| d.1.kind()) {
+                Some(k) => k,
+                None => "?",
+            };
+            cx.rep.violation(&format!("generated/id-differs-from-schema/{kind}"), full.len() as u64, || {
+                json!({"scenario": "generated-type-id", "type": full, "id_from_schema": hand, "id_text_path": text, "id_macro_path": mac})
+            });
+        }
+        if !v["record"].is_null() {
+            cx.rep.violation("generated/record-roundtrip", full.len() as u64, || json!({"scenario": "generated-type-id", "type": full, "error": v["record"]}));
+        }
+        if let Some(t) = twins.get(full) {
+            twin_compared += 1;
+            if t != text {
+                cx.rep.violation("generated/id-depends-on-order-or-docs", full.len() as u64, || {
+                    json!({"scenario": "generated-type-id", "type": full, "id": text, "id_of_reordered_documented_twin": t})
+                });
+            }
+        }
+    }
+    if compared < 100 || twin_compared < 20 {
+        mcx::machinery("C20 part B vacuity guard: too few generated types compared");
+    }
+    json!({"generated_types_compared_three_way": compared, "reordered_documented_twins_compared": twin_compared})
 }
 
 /// The bijection oracle is global, so a witness is reproduced by re-running the enumeration (a few
